@@ -62,10 +62,10 @@ impl DataItem for NumberItem {
     fn print(&self, config: &SmartCalcConfig, _: &Session) -> String {
         match self.1 {
             NumberType::Decimal     => format_number(self.0, config.thousand_separator.to_string(), config.decimal_seperator.to_string(), config.number_config.decimal_digits, config.number_config.remove_fract_if_zero, config.number_config.use_fract_rounding),
-            NumberType::Binary      => format!("{:#b}", self.0 as i32),
-            NumberType::Octal       => format!("{:#o}", self.0 as i32),
-            NumberType::Hexadecimal => format!("{:#X}", self.0 as i32),
-            NumberType::Raw         => format!("{}", self.0 as i32)
+            NumberType::Binary      => format!("{:#b}", self.0 as i64),
+            NumberType::Octal       => format!("{:#o}", self.0 as i64),
+            NumberType::Hexadecimal => format!("{:#X}", self.0 as i64),
+            NumberType::Raw         => format!("{}", self.0 as i64)
         }
     }
     fn unary(&self, unary: UnaryType) -> Rc<dyn DataItem> {
